@@ -5,11 +5,21 @@
 -/
 import PG.Model.Trace
 import PG.Lemmas.ListBasics
+import PG.Lemmas.TraceText
 namespace PG
 
 /-- what one input line becomes: `first` selects the first-line rule -/
 def renderLine (rc : Bytes → Option Bytes) (rf : Frame → List Frame) (first : Bool) (l : Bytes) : Bytes :=
   if first then renderFirst rc rf l else renderRest rc rf l
+
+theorem zipIdx_rest (rc : Bytes → Option Bytes) (rf : Frame → List Frame) (ls : List Bytes) (k : Nat) :
+    (ls.zipIdx (k + 1)).map (fun li => renderLine rc rf (li.2 == 0) li.1) =
+      ls.map (renderRest rc rf) := by
+  induction ls generalizing k with
+  | nil => rfl
+  | cons l ls ih =>
+    simp only [List.zipIdx_cons, List.map_cons, ih]
+    simp [renderLine]
 
 /-- the output is the line-by-line concatenation, in input order, of the renderings of the
     input lines (first-line rule for line 0, later-line rule for the others): no line is
@@ -17,7 +27,12 @@ def renderLine (rc : Bytes → Option Bytes) (rf : Frame → List Frame) (first 
 theorem C07_linewise (rc : Bytes → Option Bytes) (rf : Frame → List Frame) (input : Bytes) :
     remapText rc rf input =
       ((strLines input).zipIdx.map (fun li => renderLine rc rf (li.2 == 0) li.1)).flatten := by
-  sorry
+  unfold remapText
+  cases strLines input with
+  | nil => rfl
+  | cons l ls =>
+    simp only [List.zipIdx_cons, List.map_cons, List.flatten_cons, Nat.zero_add, zipIdx_rest]
+    simp [renderLine]
 
 /-- the segments a line is rendered into: the remapped throwable, one four-space-indented line
     per resolved frame, or the input line itself -/
@@ -49,13 +64,53 @@ def renderSegs (rc : Bytes → Option Bytes) (rf : Frame → List Frame) (first 
 theorem C07_render_cases (rc : Bytes → Option Bytes) (rf : Frame → List Frame) (first : Bool) (l : Bytes) :
     renderLine rc rf first l = ((renderSegs rc rf first l).map (· ++ [10])).flatten ∧
     (renderSegs rc rf first l).length ≥ 1 := by
-  sorry
+  have hfmt : ∀ f : Frame, formatFrames l (rf f) =
+      ((if (rf f).isEmpty then [l] else (rf f).map (fun g => litIndent ++ printFrame g)).map
+        (· ++ [10])).flatten := by
+    intro f
+    unfold formatFrames
+    split
+    · simp
+    · simp only [List.map_map]
+      rfl
+  have hlen : ∀ f : Frame,
+      (if (rf f).isEmpty then [l] else (rf f).map (fun g => litIndent ++ printFrame g)).length ≥ 1 := by
+    intro f
+    cases h : rf f with
+    | nil => simp
+    | cons a r => simp
+  cases first with
+  | true =>
+    simp only [renderLine, renderSegs, if_true, renderFirst, remapThrowableWith]
+    cases parseThrowable l with
+    | none =>
+      cases parseFrame l with
+      | none => simp
+      | some f => exact ⟨hfmt f, hlen f⟩
+    | some t =>
+      cases h : rc t.cls with
+      | none => simp [h]
+      | some c => simp [h]
+  | false =>
+    simp only [renderLine, renderSegs, Bool.false_eq_true, if_false, renderRest, remapThrowableWith]
+    cases parseFrame l with
+    | some f => exact ⟨hfmt f, hlen f⟩
+    | none =>
+      cases (stripPrefix litCausedBy l).bind parseThrowable with
+      | none => simp
+      | some t =>
+        cases h : rc t.cls with
+        | none => simp [h]
+        | some c => simp [h]
 
 /-- number of output segments of a frame line -/
 theorem C07_frame_count (rc : Bytes → Option Bytes) (rf : Frame → List Frame) (l : Bytes) (f : Frame)
     (hf : parseFrame l = some f) :
     (renderSegs rc rf false l).length = max 1 (rf f).length := by
-  sorry
+  simp only [renderSegs, Bool.false_eq_true, if_false, hf]
+  cases h : rf f with
+  | nil => simp
+  | cons a r => simp
 
 /-- with a mapping that knows none of the trace's classes (class lookup fails for every class
     and therefore frame lookup returns nothing) the output equals the input up to
@@ -63,17 +118,28 @@ theorem C07_frame_count (rc : Bytes → Option Bytes) (rf : Frame → List Frame
 theorem C07_identity (rc : Bytes → Option Bytes) (rf : Frame → List Frame) (input : Bytes)
     (hrc : ∀ c, rc c = none) (hrf : ∀ f, rf f = []) :
     remapText rc rf input = ((strLines input).map (· ++ [10])).flatten := by
-  sorry
+  unfold remapText
+  cases strLines input with
+  | nil => rfl
+  | cons l ls =>
+    simp only [renderFirst_unknown rc rf hrc hrf, List.map_cons, List.flatten_cons]
+    have : renderRest rc rf = fun x => x ++ [10] :=
+      funext (renderRest_unknown rc rf hrc hrf)
+    rw [this]
 
 /-- the mapper satisfies `hrf` whenever it satisfies `hrc`: frames of an unknown class do
     not resolve -/
 theorem C07_mapper_unknown (m : Mapper) (f : Frame) (h : m.remapClass f.cls = none) :
     m.remapFrame f = [] := by
-  sorry
+  unfold Mapper.remapClass at h
+  unfold Mapper.remapFrame
+  cases hl : m.classes.lookup f.cls with
+  | none => rfl
+  | some cm => rw [hl] at h; cases h
 
 /-- lines produced by `str::lines` contain no `\n` (so each output segment holds exactly one
     line terminator when the mapping's names contain none — C06) -/
-theorem C07_lines_no_newline (input : Bytes) : ∀ l ∈ strLines input, 10 ∉ l := by
-  sorry
+theorem C07_lines_no_newline (input : Bytes) : ∀ l ∈ strLines input, 10 ∉ l :=
+  strLines_no_newline input
 
 end PG
